@@ -273,10 +273,7 @@ Lemma Inv_reach : forall P b hists s,
   Inv P b (fst (run P b (init hists) s)).
 Proof. intros. apply Inv_run; auto. apply Inv_init. Qed.
 
-(* the ghost status is a function of the OBSERVABLE trace only *)
-Definition ghost_ev (g : name -> gst) (e : event) : name -> gst :=
-  updg g (e_n e) (ghost_upd (g (e_n e)) (e_op e) (e_c e) (e_pc e) (e_ret e)).
-
+(* the ghost status is a function of the OBSERVABLE trace only (Model: ghost_ev, status_after) *)
 Lemma ghost_observable : forall P b s k,
   gh (fst (run P b k s)) = fold_left ghost_ev (snd (run P b k s)) (gh k).
 Proof.
